@@ -544,6 +544,9 @@ func Chain(run *hx.Run, r *hx.Rng, kinds []string, maxDepth int) {
 			return
 		}
 		cur = hx.Pick(r, outs)
+		if !wfDesc(cur) {
+			return // an ill-formed result is reported by this step; later steps would be outside the quantifier
+		}
 		pool = append(pool, outs...)
 	}
 }
@@ -589,6 +592,8 @@ func Replay(run *hx.Run, kind string, raw json.RawMessage) bool {
 			return false
 		}
 		run.Add(LawCase(ld))
+	case "gen":
+		return ReplayGen(run, raw)
 	default:
 		return false
 	}
